@@ -42,7 +42,7 @@ func vTakeClientMessages() []ClientUpdate {
 func TestMain(m *testing.M) {
 	vMain(m, func() {
 		if os.Getenv("VERIF_VERBOSE") == "" {
-			log.SetOutput(io.Discard)
+			log.SetOutput(vLogWriter{})
 			ProblemLogger = log.New(io.Discard, "", 0)
 			UpdateLogger = log.New(io.Discard, "", 0)
 		}
@@ -53,6 +53,31 @@ func TestMain(m *testing.M) {
 			go vDrainClientMessages()
 		}
 	})
+}
+
+// vLogWriter swallows the standard logger's output but lets a check use the code's own log lines as
+// synchronisation points: the callback registered with vSetLogHook runs, in the logging goroutine, for every line.
+type vLogWriter struct{}
+
+var (
+	vLogMu   sync.Mutex
+	vLogHook func(line string)
+)
+
+func vSetLogHook(f func(line string)) {
+	vLogMu.Lock()
+	vLogHook = f
+	vLogMu.Unlock()
+}
+
+func (vLogWriter) Write(p []byte) (int, error) {
+	vLogMu.Lock()
+	h := vLogHook
+	vLogMu.Unlock()
+	if h != nil {
+		h(string(p))
+	}
+	return len(p), nil
 }
 
 // vDrainRecords empties both publish channels and returns what was on the records channel.
